@@ -7,7 +7,13 @@ spec/ClientTimeoutsTrace.tla  observational monitor (same clause names) over exe
 Driver A: every scenario of the scenario-constrained model (stall point x timeout kind x cancel at the
           n-th step of the victim) replayed step by step; byte phases of the scripted response
           (mid status line, mid header, between CR and LF, mid chunk-size, mid chunk) enumerated per stall.
-Driver B: seeded random fault schedules.
+          + TLC-simulated behaviours of the free model (races the scripted environment does not produce).
+Driver B: seeded random fault schedules (arbitrary byte segmentation, pauses, cancels, rare peer faults).
+Every recorded execution is judged by TLC (ClientTimeoutsTrace); Python drives, records, projects.
+
+Named deviations of the code as found (own clause names, proposed patches under proposed_fixes/):
+  CancelSwallowedNestedTimer   total timeout + caller cancel while awaiting the response head -> TimeoutError
+  ReadTimerRearmedAfterEof     sock_read timer re-armed on a connection already returned to the pool
 """
 from __future__ import annotations
 
